@@ -93,6 +93,11 @@ class Ctx:
             cov.update(proof)
         cov["trusted_base"] = TRUSTED_BASE + [f"assumption: {a}" for a in self.assumptions]
         cov["broken_obligations_or_streams"] = self.broken
+        if level == "proof" and not cov.get("discharged"):
+            # the theorems did not check in this run (broken build): nothing is claimed at level proof for it
+            level = "other"
+            cov["explanation"] = ("the Lean theorems of this property did NOT check in this run (see broken_obligations_or_streams): no claim at level "
+                                  "`proof` is made for it; the run is reported as a violation. " + str(cov.get("explanation", "")))
         cov["known_findings_replayed"] = self.known_lines
         if not cov["samples"]:
             cov["samples"] = ["(no correspondence cases in this run)"]
